@@ -68,7 +68,7 @@ PREFIX_OF = {"C03": ["prefix_01", "prefix_03"], "C04": ["prefix_02"], "C01": ["p
 # seeded changes from other properties' sub-agents that this property's check is also expected to catch
 ALSO = {"C01": ["C03_b", "C05_a"], "C03": ["C12_b"], "C16": ["C14_a"]}
 # seeded changes known to be out of reach of the property's own check (documented in DESIGN.md): not required to fire
-OUT_OF_REACH = {"C07_c"}   # inconclusive by design: needs buffer identity of ndarray views (DESIGN.md section 7)
+OUT_OF_REACH = set()
 
 SWAP_CALLS = {"ceil": "floor", "floor": "ceil", "min": "max", "max": "min", "all": "any", "any": "all", "fftshift": "ifftshift",
               "ifftshift": "fftshift", "partition": "rpartition", "real": "imag"}
